@@ -12,10 +12,16 @@ from common import Check
 SAFE_NAMES = ["a", "b", "c", "d", "e"]
 CORENAMED = {"e", "a_b", "a_x"}      # components whose class is called Other and carries _core_name
 FUEL = 200000
+RUNAWAY = 300                    # more log events than this in one case: user code stops doing anything, the case fails
 OPAQUE = "<opaque>"               # the one "component" a non-indexable dependency object stands for
 
 class ScriptError(Exception):
     pass
+
+class Runaway(Exception):
+    """raised by the harness once a case has made more than TW_LIMIT calls of _try_waiter (a livelock of the code under test)"""
+
+TW_LIMIT = 1000                  # legitimate cases of the generators stay below 100
 
 class _FakeThread:
     """stands for threading.Thread while a case runs: start() queues the target"""
@@ -49,6 +55,7 @@ class Env:
     """one fresh core + the interpreter of the case's scripts"""
     def __init__(self, chk, case):
         self.chk, self.case = chk, case
+        self.runaway = False
         self.log = []                 # events (same vocabulary as the model's log, plus harness-only ones starting with "_")
         self.toks, self.tok_out = [], []
         self.next_id = 0
@@ -76,6 +83,15 @@ class Env:
         core = self.core
         self.sched_calls = []
         core.scheduler.callLater = lambda f, *a, **k: self.sched_calls.append((f, a, k))    # simulated scheduler thread
+        self.tw_calls = 0
+        orig_try = core._try_waiter
+        def counted_try_waiter(entry):            # pass-through; only counts, so that a livelock ends the case instead of the run
+            self.tw_calls += 1
+            if self.tw_calls > TW_LIMIT:
+                self.runaway = True
+                raise Runaway()
+            return orig_try(entry)
+        core._try_waiter = counted_try_waiter
         core.addListener(pc.GoingUpEvent, self._on_going_up)
         core.addListener(pc.UpEvent, self._on_up)
         core.addListener(pc.GoingDownEvent, self._on_going_down)
@@ -138,14 +154,21 @@ class Env:
             d[attr] = h
         if s.get("met") is not None:
             def met(self_):
-                env.log.append(["fired", wid, list(env.core.components)])
-                env.in_callback(wid, s["met"])
+                if env.fired(wid): env.in_callback(wid, s["met"])
             d["_all_dependencies_met"] = met
         sink = type("Sink%d" % k, (object,), d)()
         self.sinks.setdefault(k, []).append((wid, sink))
         return sink
 
     # ---- script interpreter
+    def fired(self, wid):
+        """record a callback invocation; False once the case has run away (then user code does nothing any more)"""
+        if len(self.log) > RUNAWAY:
+            self.runaway = True
+            return False
+        self.log.append(["fired", wid, list(self.core.components)])
+        return True
+
     def in_callback(self, wid, body):
         try:
             self.run_script(self.case["bodies"][body])
@@ -154,6 +177,9 @@ class Env:
             raise
 
     def run_script(self, acts, going_up_event=None):
+        if self.runaway or len(self.log) > RUNAWAY:
+            self.runaway = True
+            return
         for a in acts:
             self.do_act(a, going_up_event)
 
@@ -184,15 +210,13 @@ class Env:
             if kind == "method":
                 class Holder(object):
                     def callback(self_, *args, **kw):
-                        env.log.append(["fired", wid, list(core.components)])
-                        env.in_callback(wid, body)
+                        if env.fired(wid): env.in_callback(wid, body)
                 cb = Holder().callback
             elif kind == "callable":
                 class Callable(object):
                     __name__ = None                   # call_when_ready falls back to str(callback)
                     def __call__(self_, *args, **kw):
-                        env.log.append(["fired", wid, list(core.components)])
-                        env.in_callback(wid, body)
+                        if env.fired(wid): env.in_callback(wid, body)
                 cb = Callable()
             elif kind == "none":
                 cb = None
@@ -200,8 +224,7 @@ class Env:
             else:
                 def cb(*args, **kw):
                     if args != tuple(a.get("args", ())) : raise AssertionError("args not passed through")
-                    env.log.append(["fired", wid, list(core.components)])
-                    env.in_callback(wid, body)
+                    if env.fired(wid): env.in_callback(wid, body)
             self.keep.append(cb)
             self.cb_ids[id(cb.__func__) if kind == "method" else id(cb)] = wid
             kwargs = {}
@@ -305,7 +328,7 @@ class Env:
             threading.Thread, time.sleep, gc.collect, pc.log = saved
         return {"log": self.log, "marks": marks, "after": after, "op_exc": op_exc, "decls": self.decls,
                 "comps": list(self.core.components), "pending": pending, "outstanding": internal_out,
-                "hits": sorted(self.hits), "sink_attrs": sink_attrs, "listen_order": self.listen_order, "silent": self.silent}
+                "hits": sorted(self.hits), "sink_attrs": sink_attrs, "listen_order": self.listen_order, "silent": self.silent, "runaway": self.runaway}
 
 
 def segments(log, marks):
@@ -708,6 +731,9 @@ class C08(Check):
         log, marks = obs["log"], obs["marks"]
         decls = {d[0]: d for d in obs["decls"]}
         ops = case["ops"]
+        if obs["runaway"]:
+            twice = [e[1] for e in log if e[0] == "fired"]
+            return "runaway:%s: more than %d events in one history" % ("callback-reinvoked" if len(twice) != len(set(twice)) else "events", RUNAWAY)
         # which op does log position p belong to
         def op_of(p):
             for i, m in enumerate(marks):
